@@ -132,6 +132,11 @@ def build_config(cfg: dict):
     phases = [getattr(PhaseName, PHASES[p]) for p in cfg.get("phases", ["examples", "coverage", "fuzzing", "stateful"])]
     modes = [GenerationMode.POSITIVE if m == "positive" else GenerationMode.NEGATIVE for m in cfg.get("modes", ["positive"])]
     hs = {"deadline": None, "database": None, "max_examples": cfg.get("max_examples", 5)}
+    if cfg.get("database_dir"):
+        # what the CLI does by default: failures found by one run are kept on disk and seen by the next one
+        from hypothesis.database import DirectoryBasedExampleDatabase
+
+        hs["database"] = DirectoryBasedExampleDatabase(cfg["database_dir"])
     if "stateful_step_count" in cfg:
         hs["stateful_step_count"] = cfg["stateful_step_count"]
     if cfg.get("no_shrink"):
